@@ -380,7 +380,7 @@ def build():
     checks.append(dict(
       property_id=pid,
       quick_cmd=f'{PY} -m mc.run --property {pid} --tier quick',
-      thorough_cmd=f'{PY} -m mc.run --property {pid} --tier thorough',
+      thorough_cmd=f'{PY} -m mc.run --property {pid} --tier thorough --budget 1500',
       evidence_file=f'/verif/evidence/{pid}.json',
       replay_cmd_template=f'{PY} -m mc.run --replay {{path}}',
       engine='mc',
